@@ -1529,10 +1529,11 @@ MANIFEST = {
             "/ set_line / replace_id / find_goal / apply_tactic, tied to the code by replaying every recorded primitive call and the ItemID "
             "arithmetic on the model. Proved: add_line_before (before an existing line) and set_line (with admissible citations) preserve "
             "well-formedness = ids equal positions at every depth + every citation satisfies can_depend_on (add_line_preserves_wf, "
-            "set_line_preserves_wf, sequences: edits_preserve_wf_partial); remove_line keeps the numbering "
-            "(remove_line_preserves_numbering_partial); in a well-formed state every cited line exists (wf_citation_resolves); "
-            "shift_preserves_visibility, visibility_transitive, replace_preserves_citations; goal_preserved_partial. NOT proved: citations "
-            "under remove_line; replace_id and apply_tactic as composites (well-formedness and last line); export/import. "
+            "set_line_preserves_wf), so do remove_line of a line that no line of its proof cites (remove_line_preserves_wf) and replace_id "
+            "of an existing line by a line visible from it (replace_id_preserves_wf); sequences of these four: edits_preserve_wf_partial; "
+            "in a well-formed state every cited line exists (wf_citation_resolves); shift_preserves_visibility, visibility_transitive, "
+            "replace_preserves_citations; goal_preserved_partial. NOT proved: apply_tactic as a composite (that its inner calls meet the "
+            "preconditions of these theorems, for well-formedness and for the last line); export/import. "
             "goal_preserved_partial only says that add_line_before/remove_line/set_line calls which do not target the last top-level line "
             "leave its rule and sequent alone (hypothesis safeRun); that the methods - in particular apply_tactic's inner calls - meet "
             "safeRun is not proved, it is observed by the oracle (last line checked after every step) and the correspondence stream.",
